@@ -1878,6 +1878,135 @@ add('c15-benign-sheet-extent-cache-removed', 'C15', 'benign', [(EXCEL, """      
                 sheet_limits[wk] = wk.max_row, wk.max_column
             max_row, max_column = sheet_limits[wk]""", """            max_row, max_column = wk.max_row, wk.max_column""")])
 
+# ---------------------------------------------------------------- round 6 rules
+add('c01-one-union-token-for-all-members', 'C01', 'break', [(PAREN, """                for i in range(n - 1):
+                    builder.append(Separator(','))""", """                sep = Separator(',')
+                i = 1
+                while i < n:
+                    builder.append(sep)
+                    i += 1""")], expect='C01.freshtoken')
+add('c01-benign-union-token-bound-in-the-loop', 'C01', 'benign', [(PAREN, """                for i in range(n - 1):
+                    builder.append(Separator(','))""", """                for i in range(n - 1):
+                    sep = Separator(',')
+                    builder.append(sep)""")])
+add('c10-single-node-components-dropped-with-filter', 'C10', 'break', [(CYCLE, """    sccs = _strongly_connected_components(graph)
+    while sccs:""", """    sccs = list(filter(lambda c: len(c) >= 2,
+                       _strongly_connected_components(graph)))
+    while sccs:""")], expect='C10.scc')
+add('c10-benign-components-listed', 'C10', 'benign', [(CYCLE, """    sccs = _strongly_connected_components(graph)
+    while sccs:""", """    sccs = list(_strongly_connected_components(graph))
+    while sccs:""")])
+add('c10-cell-graph-consumed-through-dict-copy', 'C10', 'break', [(CELL, """        dmap = {
+            v: set(nbrs) - skip_nodes
+            for v, nbrs in fn.dsp.dmap.succ.items()
+            if v not in skip_nodes
+        }
+        dmap[o] = set(cycle).intersection(inputs)""", """        if not hasattr(self, '_graph'):
+            self._graph = {
+                v: set(nbrs) - skip_nodes
+                for v, nbrs in fn.dsp.dmap.succ.items()
+                if v not in skip_nodes
+            }
+        dmap = dict(self._graph)
+        dmap[o] = set(cycle).intersection(inputs)""")], expect='C10.consume')
+add('c10-benign-cell-graph-filled-by-loop', 'C10', 'benign', [(CELL, """        dmap = {
+            v: set(nbrs) - skip_nodes
+            for v, nbrs in fn.dsp.dmap.succ.items()
+            if v not in skip_nodes
+        }
+        dmap[o] = set(cycle).intersection(inputs)""", """        dmap = {}
+        for v, nbrs in fn.dsp.dmap.succ.items():
+            if v not in skip_nodes:
+                dmap[v] = set(nbrs).difference(skip_nodes)
+        dmap[o] = set(cycle).intersection(inputs)""")], may_error=True)
+add('c04-fast-path-for-relative-first-corner', 'C04', 'break', [(OPERAND, """    inputs = {k: kw[k] for k in _keys if k in kw}
+
+    for func in""", """    inputs = {k: kw[k] for k in _keys if k in kw}
+    if 'rc1' in kw and 'rr1' in kw and 'n1' not in inputs:
+        inputs.update(
+            r1=str(int(kw.get('cr', 1)) + int(kw['rr1'])),
+            n1=int(kw.get('cc', 1)) + int(kw['rc1']))
+
+    for func in""")], expect='C04.fast')
+add('c04-benign-fast-path-for-relative-single-cell', 'C04', 'benign', [(OPERAND, """    inputs = {k: kw[k] for k in _keys if k in kw}
+
+    for func in""", """    inputs = {k: kw[k] for k in _keys if k in kw}
+    if 'rc1' in kw and 'rr1' in kw and 'rr2' not in kw and 'rc2' not in kw \
+            and not {'r1', 'n1', 'c1', 'r2', 'n2', 'c2'} & set(kw):
+        inputs.update(
+            r1=float(int(kw.get('cr', 1)) + int(kw['rr1'])),
+            n1=float(int(kw.get('cc', 1)) + int(kw['rc1'])))
+
+    for func in""")], may_error=True)
+add('c11-a-conversion-before-the-error-check', 'C11', 'break', [(STAT, """    _raise and raise_errors(args)
+    it = flatten(map(_convert_args, args), check=check)
+    default = [] if default is None else [default]
+    return func(list(map(convert, it) if convert else it) or default)""", """    it = flatten(map(_convert_args, args), check=check)
+    vals = list(map(convert, it)) if convert else list(it)
+    if _raise:
+        raise_errors(vals)
+    default = [] if default is None else [default]
+    return func(vals or default)""")], expect='C11.errkeep.sinks')
+add('c11-benign-error-check-as-statement', 'C11', 'benign', [(STAT, """    _raise and raise_errors(args)
+    it = flatten(map(_convert_args, args), check=check)
+    default = [] if default is None else [default]
+    return func(list(map(convert, it) if convert else it) or default)""", """    if _raise:
+        raise_errors(args)
+    it = flatten(map(_convert_args, args), check=check)
+    vals = list(map(convert, it)) if convert else list(it)
+    default = [] if default is None else [default]
+    return func(vals or default)""")])
+add('c11-error-scan-remembered-on-the-array', 'C11', 'break', [(F, """def get_error(*vals):
+    # noinspection PyTypeChecker
+    for v in flatten(vals, None, True):
+        if isinstance(v, XlError):
+            return v""", """def get_error(*vals):
+    for val in vals:
+        if isinstance(val, Array) and getattr(val, '_clean', False):
+            continue
+        # noinspection PyTypeChecker
+        for v in flatten((val,), None, True):
+            if isinstance(v, XlError):
+                return v
+        if isinstance(val, Array):
+            val._clean = True""")], expect='C11.scanpure')
+add('c11-benign-error-scan-with-next', 'C11', 'benign', [(F, """def get_error(*vals):
+    # noinspection PyTypeChecker
+    for v in flatten(vals, None, True):
+        if isinstance(v, XlError):
+            return v""", """def get_error(*vals):
+    # noinspection PyTypeChecker
+    return next(
+        (v for v in flatten(vals, None, True) if isinstance(v, XlError)), None
+    )""")], may_error=True)
+add('c14-unknown-link-index-left-alone', 'C14', 'break', [(OPERAND, """    if excel_id and excel_id != '0':
+        inputs['directory'], inputs['filename'] = inputs.get(
+            'external_links', {}
+        ).get(excel_id, ('', excel_id))""", """    link = inputs.get('external_links', {}).get(excel_id)
+    if link is not None:
+        inputs['directory'], inputs['filename'] = link""")], expect='C14.link')
+add('c14-benign-link-table-in-a-local', 'C14', 'benign', [(OPERAND, """    if excel_id and excel_id != '0':
+        inputs['directory'], inputs['filename'] = inputs.get(
+            'external_links', {}
+        ).get(excel_id, ('', excel_id))""", """    if excel_id and excel_id != '0':
+        table = inputs.get('external_links', {})
+        directory, filename = table.get(excel_id, ('', excel_id))
+        inputs['directory'], inputs['filename'] = directory, filename""")])
+add('c19-exact-match-before-the-type-filter', 'C19', 'break', [(LOOK, """    res = [Error.errors['#N/A']]
+    b = lookup_value_type == lookup_array_type""", """    res = [Error.errors['#N/A']]
+    if not match_type:
+        hit = np.flatnonzero(lookup_array == lookup_value)
+        if hit.size:
+            return lookup_array_index[hit[0]]
+    b = lookup_value_type == lookup_array_type""")], expect='C19.typed')
+add('c19-benign-exact-match-on-the-filtered-array', 'C19', 'benign', [(LOOK, """            b = lookup_value == array
+            if b.any():
+                return index[b][0]
+            return Error.errors['#N/A']""", """            hit = np.flatnonzero(array == lookup_value)
+            if hit.size:
+                return index[hit[0]]
+            return Error.errors['#N/A']""")], may_error=True)
+
 if __name__ == '__main__':
     here = os.path.dirname(os.path.abspath(__file__))
     ids = [v['id'] for v in V]
